@@ -80,3 +80,28 @@ package npm
 //@   loop 1 invariant len(constraintGroups) == rangeindex + 1 && (forall g int :: 0 <= g && g <= rangeindex ==> constraintGroups[g] == parseRange(strings.TrimSpace(parts[g])).0)
 //@   ensures or-groups: strings.Contains(rangeStr, "||") && result1 == nil ==> len(result0) == len(strings.Split(rangeStr, "||")) && (forall g int :: 0 <= g && g < len(result0) ==> result0[g] == parseRange(strings.TrimSpace(strings.Split(rangeStr, "||")[g])).0)   [C02]
 //@   ensures single-group: !strings.Contains(rangeStr, "||") && result1 == nil ==> len(result0) == 1 && result0[0] == parseRange(rangeStr).0   [C02]
+
+// ---- shorthand desugaring (C05): the comparator pair each caret / tilde / x-range is rewritten to.  nv(s) is the parsed
+// base; the bounds are texts, read back by (*constraint).matches through NewVersion (that step is the bounded layer).
+//@ func parseCaretRange
+//@   ensures rejects-bad-base: theEcosystem().NewVersion(version).1 != nil ==> result1 != nil   [C05]
+//@   ensures pair: theEcosystem().NewVersion(version).1 == nil ==> result1 == nil && len(result0) == 2 && result0[0] != nil && result0[1] != nil && result0[0].operator == ">=" && result0[1].operator == "<" && result0[0].version == theEcosystem().NewVersion(version).0.normalize()   [C05]
+//@   ensures upper-major: theEcosystem().NewVersion(version).1 == nil && theEcosystem().NewVersion(version).0.major != 0 && theEcosystem().NewVersion(version).0.major < 9223372036854775807 ==> result0[1].version == itoa(theEcosystem().NewVersion(version).0.major + 1) + ".0.0-0"   [C05]
+//@   ensures upper-minor: theEcosystem().NewVersion(version).1 == nil && theEcosystem().NewVersion(version).0.major == 0 && theEcosystem().NewVersion(version).0.minor != 0 && theEcosystem().NewVersion(version).0.minor < 9223372036854775807 ==> result0[1].version == "0." + itoa(theEcosystem().NewVersion(version).0.minor + 1) + ".0-0"   [C05]
+//@   ensures upper-patch: theEcosystem().NewVersion(version).1 == nil && theEcosystem().NewVersion(version).0.major == 0 && theEcosystem().NewVersion(version).0.minor == 0 && theEcosystem().NewVersion(version).0.patch < 9223372036854775807 ==> result0[1].version == "0.0." + itoa(theEcosystem().NewVersion(version).0.patch + 1) + "-0"   [C05]
+
+//@ func parseTildeRange
+//@   ensures rejects-bad-base: theEcosystem().NewVersion(version).1 != nil ==> result1 != nil   [C05]
+//@   ensures pair: theEcosystem().NewVersion(version).1 == nil ==> result1 == nil && len(result0) == 2 && result0[0] != nil && result0[1] != nil && result0[0].operator == ">=" && result0[1].operator == "<" && result0[0].version == theEcosystem().NewVersion(version).0.normalize()   [C05]
+//@   ensures upper-minor: theEcosystem().NewVersion(version).1 == nil && theEcosystem().NewVersion(version).0.minor < 9223372036854775807 ==> result0[1].version == itoa(theEcosystem().NewVersion(version).0.major) + "." + itoa(theEcosystem().NewVersion(version).0.minor + 1) + ".0-0"   [C05]
+
+//@ spec wild(p string) bool = p == "x" || p == "X" || p == "*"
+//@ func parseXRange
+//@   ensures too-short: len(strings.Split(rangeStr, ".")) < 2 ==> result1 != nil   [C05]
+//@   ensures bad-major: len(strings.Split(rangeStr, ".")) >= 2 && strconv.Atoi(strings.Split(rangeStr, ".")[0]).1 != nil ==> result1 != nil   [C05]
+//@   ensures major-range: len(strings.Split(rangeStr, ".")) >= 2 && strconv.Atoi(strings.Split(rangeStr, ".")[0]).1 == nil && strconv.Atoi(strings.Split(rangeStr, ".")[0]).0 < 9223372036854775807 && wild(strings.Split(rangeStr, ".")[1]) && (len(strings.Split(rangeStr, ".")) == 2 || (len(strings.Split(rangeStr, ".")) == 3 && wild(strings.Split(rangeStr, ".")[2]))) ==> result1 == nil && len(result0) == 2 && result0[0].operator == ">=" && result0[0].version == itoa(strconv.Atoi(strings.Split(rangeStr, ".")[0]).0) + ".0.0-0" && result0[1].operator == "<" && result0[1].version == itoa(strconv.Atoi(strings.Split(rangeStr, ".")[0]).0 + 1) + ".0.0-0"   [C05]
+//@   ensures minor-range: len(strings.Split(rangeStr, ".")) == 3 && strconv.Atoi(strings.Split(rangeStr, ".")[0]).1 == nil && !wild(strings.Split(rangeStr, ".")[1]) && wild(strings.Split(rangeStr, ".")[2]) && strconv.Atoi(strings.Split(rangeStr, ".")[1]).1 == nil && strconv.Atoi(strings.Split(rangeStr, ".")[1]).0 < 9223372036854775807 ==> result1 == nil && len(result0) == 2 && result0[0].operator == ">=" && result0[0].version == itoa(strconv.Atoi(strings.Split(rangeStr, ".")[0]).0) + "." + itoa(strconv.Atoi(strings.Split(rangeStr, ".")[1]).0) + ".0-0" && result0[1].operator == "<" && result0[1].version == itoa(strconv.Atoi(strings.Split(rangeStr, ".")[0]).0) + "." + itoa(strconv.Atoi(strings.Split(rangeStr, ".")[1]).0 + 1) + ".0-0"   [C05]
+
+//@ func parseHyphenRange
+//@   ensures pair: result1 == nil ==> len(strings.Split(rangeStr, " - ")) == 2 && len(result0) == 2 && result0[0].operator == ">=" && result0[0].version == strings.TrimSpace(strings.Split(rangeStr, " - ")[0]) && result0[1].operator == "<=" && result0[1].version == strings.TrimSpace(strings.Split(rangeStr, " - ")[1])   [C05]
+//@   ensures valid-bounds: result1 == nil ==> theEcosystem().NewVersion(strings.TrimSpace(strings.Split(rangeStr, " - ")[0])).1 == nil && theEcosystem().NewVersion(strings.TrimSpace(strings.Split(rangeStr, " - ")[1])).1 == nil   [C05]
